@@ -48,7 +48,7 @@ def worker(k, todo, res, lock):
             sh('git -C %s clean -fdq' % wt)
         viol = [l for l in o.splitlines() if l.startswith('VIOLATION')]
         with lock:
-            res[name] = {'applies': True, 'exit': rc, 'violations': len(viol), 'caught': rc == 1 and len(viol) > 0, 'seconds': round(time.time() - t0, 1),
+            res[name] = {'applies': True, 'exit': rc, 'violations': len(viol), 'caught': rc == 1 and len(viol) > 0, 'with_failing_input': len([l for l in viol if not l.rstrip().endswith('no-failing-input-found')]), 'seconds': round(time.time() - t0, 1),
                          'demo_exit_on_current_tree_with_patch': drc, 'neutralised_by_a_later_repair': drc == 0}
             if rc != 0 and not viol:
                 res[name]['output_tail'] = o[-1500:]
